@@ -11,6 +11,7 @@ import (
 	"time"
 
 	"github.com/siyul-park/uniflow/pkg/packet"
+	"github.com/siyul-park/uniflow/pkg/port"
 	"github.com/siyul-park/uniflow/pkg/runtime"
 	"github.com/siyul-park/uniflow/pkg/types"
 
@@ -31,19 +32,53 @@ type scenario []string
 
 func (s scenario) String() string { return strings.Join(s, " ") }
 
-func isCall(o string) bool { return o != "hook" }
+// splitOp: "remove:2" → ("remove", 2); no suffix = breakpoint 0.
+func splitOp(o string) (string, int) {
+	if i := strings.IndexByte(o, ':'); i >= 0 {
+		n := 0
+		fmt.Sscanf(o[i+1:], "%d", &n)
+		return o[:i], n
+	}
+	return o, 0
+}
+
+func isCall(o string) bool { n, _ := splitOp(o); return n != "hook" }
+
+// nbOf: number of breakpoints a scenario needs.
+func nbOf(sc scenario) int {
+	nb := 1
+	for _, o := range sc {
+		if _, b := splitOp(o); b+1 > nb {
+			nb = b + 1
+		}
+	}
+	return nb
+}
+
+// parallelFlow: k independent chains src → pass → sink (nodes 3i, 3i+1, 3i+2).
+func parallelFlow(k int) flowSpec {
+	fs := flowSpec{name: fmt.Sprintf("par%d", k)}
+	for i := 0; i < k; i++ {
+		fs.nodes = append(fs.nodes,
+			nodeSpec{kind: "src", outs: map[string]edge{"out": {3*i + 1, "in"}}},
+			nodeSpec{kind: "pass", outs: map[string]edge{"out": {3*i + 2, "in"}}},
+			nodeSpec{kind: "sink"})
+	}
+	return fs
+}
 
 // modelMust asks the driver, for every scenario and every prefix, what all quiescent states of
 // the model agree on (one driver process for all scenarios).
 func modelMust(c *lib.Ctx, scs []scenario) ([][][]string, error) {
 	var in bytes.Buffer
 	for _, sc := range scs {
-		in.WriteString("reset\nbp\n")
+		in.WriteString(fmt.Sprintf("reset\nbp %d\n", nbOf(sc)))
 		for _, o := range sc {
+			name, b := splitOp(o)
 			if isCall(o) {
-				in.WriteString("call " + o + "\n")
+				in.WriteString(fmt.Sprintf("call %s %d\n", name, b))
 			} else {
-				in.WriteString("hook\n")
+				in.WriteString(fmt.Sprintf("hook %d\n", b))
 			}
 			in.WriteString("must\n")
 		}
@@ -122,6 +157,9 @@ func (cr *callRec) poll(wait time.Duration) {
 	}
 }
 
+// bpBroken: a breakpoint scenario ended with a packet or call stuck for good.
+var bpBroken bool
+
 type bpArrival struct {
 	sess int
 	pck  *packet.Packet
@@ -130,26 +168,34 @@ type bpArrival struct {
 // bpCase runs one scenario on the real Debugger.
 func bpCase(c *lib.Ctx, sc scenario, must [][]string, script *lib.Script, fails *[]lib.OracleFail) (key string) {
 	agent := runtime.NewAgent()
-	fs := chainFlow([]int{0})
+	nb := nbOf(sc)
+	fs := parallelFlow(nb)
 	f, err := build(fs, agent)
 	if err != nil {
 		*fails = append(*fails, lib.OracleFail{Class: "build", What: err.Error()})
 		return ""
 	}
-	target := f.syms[1]
-	targetIn := target.In("in")
+	targetIn := map[*port.InPort]bool{}
+	for b := 0; b < nb; b++ {
+		targetIn[f.syms[3*b+1].In("in")] = true
+	}
 	entered := make(chan struct{}, 64)
 	agent.Watch(runtime.NewFrameWatcher(func(fr *runtime.Frame) {
-		// request stage on the watched port (the answer stage only happens during clean-up)
-		if fr.Symbol == target && fr.InPort == targetIn && fr.OutPck == nil {
+		// request stage on a watched port (the answer stage only happens during clean-up)
+		if fr.InPort != nil && targetIn[fr.InPort] && fr.OutPck == nil {
 			entered <- struct{}{}
 		}
 	}))
 	d := runtime.NewDebugger(agent)
-	bp := runtime.NewBreakpoint(runtime.BreakWithSymbol(target), runtime.BreakWithInPort(targetIn))
-	d.AddBreakpoint(bp)
-	script.Op("bp", "ok")
+	var bps []*runtime.Breakpoint
+	for b := 0; b < nb; b++ { // one breakpoint per symbol, registered in index order
+		t := f.syms[3*b+1]
+		bps = append(bps, runtime.NewBreakpoint(runtime.BreakWithSymbol(t), runtime.BreakWithInPort(t.In("in"))))
+		d.AddBreakpoint(bps[b])
+	}
+	script.Op(fmt.Sprintf("bp %d", nb), "ok")
 
+	nfails0 := len(*fails)
 	trace := []string{"# scenario: " + sc.String()}
 	fail := func(class, what string) {
 		if len(*fails) < 20 {
@@ -158,6 +204,8 @@ func bpCase(c *lib.Ctx, sc scenario, must [][]string, script *lib.Script, fails 
 	}
 
 	var sessions []*session
+	var sessBp []int
+	closedBp := make([]bool, nb)
 	var wrote []chan int
 	sinkPck := map[int]*packet.Packet{}
 	arrivals := make(chan bpArrival, 64)
@@ -165,6 +213,7 @@ func bpCase(c *lib.Ctx, sc scenario, must [][]string, script *lib.Script, fails 
 	released := 0
 	var calls []*callRec
 	closing, dclosed := false, false
+	stalled := false
 	ctx := context.Background()
 
 	take := func(a bpArrival) { sinkPck[a.sess] = a.pck; released++ }
@@ -190,7 +239,25 @@ func bpCase(c *lib.Ctx, sc scenario, must [][]string, script *lib.Script, fails 
 		}
 	}
 	observe := func(m []string) (real, pattern string) {
-		// m[0] = released=<n|?>, m[1] = held=<1|0|?>, m[2+i] = T|F|b|? for call i
+		// m[0] = released=<n|?>, m[1] = held=<1|0|?>, m[2] = cur=<h|-|?>,…, m[3+i] = T|F|b|? for call i
+		if len(m) > 2 && strings.HasPrefix(m[2], "cur=") {
+			// b.current of a breakpoint is the frame of packet h in every quiescent state: wait until
+			// the real d.next goroutine has received it (Breakpoint.Frame is public API)
+			for b, v := range strings.Split(strings.TrimPrefix(m[2], "cur="), ",") {
+				var h int
+				if _, err := fmt.Sscanf(v, "%d", &h); err != nil || b >= len(bps) || h >= len(sessions) {
+					continue
+				}
+				deadline := time.Now().Add(watchdog)
+				for time.Now().Before(deadline) {
+					if fr := bps[b].Frame(); fr != nil && fr.Process == sessions[h].proc {
+						break
+					}
+					time.Sleep(50 * time.Microsecond)
+				}
+			}
+			m = append(append([]string{}, m[:2]...), m[3:]...)
+		}
 		if len(m) > 1 && m[1] == "held=1" {
 			// some Pause / Step must be waiting inside its select: make sure the real one got there
 			// (a goroutine that has not been scheduled yet is indistinguishable from a blocked one)
@@ -207,10 +274,16 @@ func bpCase(c *lib.Ctx, sc scenario, must [][]string, script *lib.Script, fails 
 			var n int
 			fmt.Sscanf(m[0], "released=%d", &n)
 			collect(n, watchdog)
+			if released < n {
+				stalled = true // the real system did not get where every schedule of the model gets
+			}
 		}
 		for i, cr := range calls {
 			if 1+i < len(m) && (m[1+i] == "T" || m[1+i] == "F") {
 				cr.poll(watchdog)
+				if cr.ret == "" {
+					stalled = true
+				}
 			}
 		}
 		if !relKnown {
@@ -244,14 +317,16 @@ func bpCase(c *lib.Ctx, sc scenario, must [][]string, script *lib.Script, fails 
 	}
 
 	for step, o := range sc {
-		switch o {
+		name, b := splitOp(o)
+		switch name {
 		case "hook":
 			s := openSession(f)
 			idx := len(sessions)
 			sessions = append(sessions, s)
+			sessBp = append(sessBp, b)
 			w := make(chan int, 1)
 			wrote = append(wrote, w)
-			go func() { w <- s.writers[0].Write(packet.New(types.NewInt(idx))) }()
+			go func() { w <- s.writers[3*b].Write(packet.New(types.NewInt(idx))) }()
 			go func() {
 				select {
 				case ev := <-s.events:
@@ -264,35 +339,68 @@ func bpCase(c *lib.Ctx, sc scenario, must [][]string, script *lib.Script, fails 
 			case <-time.After(watchdog):
 				fail("hook-not-entered", fmt.Sprintf("packet %d never reached the agent's hook", idx))
 			}
-			script.Op("hook", "ok")
+			script.Op(fmt.Sprintf("hook %d", b), "ok")
 		case "pause":
-			start(o, func() bool { return d.Pause(ctx) })
+			start(name, func() bool { return d.Pause(ctx) })
 		case "step":
-			start(o, func() bool { return d.Step(ctx) })
+			start(name, func() bool { return d.Step(ctx) })
 		case "remove":
-			closing = true
-			start(o, func() bool { return d.RemoveBreakpoint(bp) })
+			closing, closedBp[b] = true, true
+			start(name, func() bool { return d.RemoveBreakpoint(bps[b]) })
 		case "dclose":
 			closing, dclosed = true, true
-			start(o, func() bool { d.Close(); return true })
+			for i := range closedBp {
+				closedBp[i] = true
+			}
+			start(name, func() bool { d.Close(); return true })
 		case "close":
-			closing = true
-			start(o, func() bool { bp.Close(); return true })
+			closing, closedBp[b] = true, true
+			start(name, func() bool { bps[b].Close(); return true })
 		}
 		if isCall(o) {
-			script.Op("call "+o, "ok")
+			script.Op(fmt.Sprintf("call %s %d", name, b), "ok")
 		}
+		script.Op("must", strings.Join(must[step], " "))
 		real, pat := observe(must[step])
-		trace = append(trace, fmt.Sprintf("%-7s => %s   (model agrees on: %s)", o, real, strings.Join(must[step], " ")))
+		trace = append(trace, fmt.Sprintf("%-8s => %s   (model agrees on: %s)", o, real, strings.Join(must[step], " ")))
 		script.Op("expect "+pat, "ok")
-		c.Hit("bp-op-" + o)
+		c.Hit("bp-op-" + name)
+		if stalled {
+			break // what follows would only wait for more watchdogs
+		}
+	}
+	if nb > 1 {
+		c.Hit(fmt.Sprintf("bp-debugger-with-%d-breakpoints", nb))
 	}
 
-	// the property, directly: after remove / close, every paused packet is resumed
+	// the property, directly: after remove / close, every packet paused on (or arriving later at) a
+	// removed / closed breakpoint is resumed
 	if closing {
-		collect(len(sessions), watchdog)
-		if released < len(sessions) {
-			fail("paused-packet-never-resumed", fmt.Sprintf("%d of %d packets still paused %v after the breakpoint was removed / closed", len(sessions)-released, len(sessions), watchdog))
+		want := 0
+		for _, b := range sessBp {
+			if closedBp[b] {
+				want++
+			}
+		}
+		deadline := time.Now().Add(watchdog)
+		stuck := func() []int {
+			var out []int
+			for i, b := range sessBp {
+				if _, ok := sinkPck[i]; closedBp[b] && !ok {
+					out = append(out, i)
+				}
+			}
+			return out
+		}
+		for len(stuck()) > 0 && time.Now().Before(deadline) {
+			collect(released+1, 50*time.Millisecond)
+		}
+		if st := stuck(); len(st) > 0 {
+			var desc []string
+			for _, i := range st {
+				desc = append(desc, fmt.Sprintf("packet %d on breakpoint %d", i, sessBp[i]))
+			}
+			fail("paused-packet-never-resumed", fmt.Sprintf("%d of %d packets still paused %v after their breakpoint was removed / the debugger closed: %s", len(st), want, watchdog, strings.Join(desc, ", ")))
 		}
 	}
 	if dclosed {
@@ -304,6 +412,14 @@ func bpCase(c *lib.Ctx, sc scenario, must [][]string, script *lib.Script, fails 
 		}
 	}
 	trace = append(trace, fmt.Sprintf("final   => released=%d/%d", released, len(sessions)))
+
+	if stalled || len(*fails) > nfails0 {
+		// something is stuck for good: leave this debugger and its goroutines behind, and do not
+		// start further breakpoint scenarios (each would run into the same watchdogs)
+		bpBroken = true
+		go d.Close()
+		return "bp:" + sc.String()
+	}
 
 	// clean-up: release everything, answer at the sink, collect the responses
 	cleanup := func() {
@@ -317,9 +433,9 @@ func bpCase(c *lib.Ctx, sc scenario, must [][]string, script *lib.Script, fails 
 				continue
 			}
 			if p := sinkPck[i]; p != nil {
-				s.readers[2].Receive(packet.New(types.NewInt(1000 + i)))
+				s.readers[3*sessBp[i]+2].Receive(packet.New(types.NewInt(1000 + i)))
 				select {
-				case <-s.writers[0].Receive():
+				case <-s.writers[3*sessBp[i]].Receive():
 				case <-time.After(watchdog):
 					fail("flow", fmt.Sprintf("no response to packet %d during clean-up", i))
 				}
@@ -394,6 +510,47 @@ func genScenarios(c *lib.Ctx, rng *lib.RNG) []scenario {
 		}
 		if !ok(s) {
 			s = append(s, lib.Pick(rng, []string{"remove", "dclose"}))
+		}
+		out = append(out, s)
+	}
+	// one debugger with 3–5 breakpoints (one per symbol), every one of them holding a paused packet
+	// when RemoveBreakpoint (any order) / Debugger.Close happens; afterwards one more packet per
+	// symbol: it must not be held by a leftover watcher
+	for i := 0; i < c.Scale(30, 400); i++ {
+		nb := rng.Range(3, 5)
+		var s scenario
+		perm := func() []int {
+			p := make([]int, nb)
+			for j := range p {
+				p[j] = j
+			}
+			for j := nb - 1; j > 0; j-- {
+				k := rng.Intn(j + 1)
+				p[j], p[k] = p[k], p[j]
+			}
+			return p
+		}
+		for _, b := range perm() {
+			s = append(s, fmt.Sprintf("hook:%d", b))
+		}
+		for j := rng.Intn(3); j > 0; j-- {
+			s = append(s, lib.Pick(rng, []string{"pause", "step", fmt.Sprintf("hook:%d", rng.Intn(nb))}))
+		}
+		switch rng.Intn(3) {
+		case 0:
+			s = append(s, "dclose")
+		case 1: // remove some, in arbitrary order, then close
+			for _, b := range perm()[:rng.Range(1, nb-1)] {
+				s = append(s, fmt.Sprintf("remove:%d", b))
+			}
+			s = append(s, "dclose")
+		default: // remove all, in arbitrary order
+			for _, b := range perm() {
+				s = append(s, fmt.Sprintf("remove:%d", b))
+			}
+		}
+		for _, b := range perm() {
+			s = append(s, fmt.Sprintf("hook:%d", b))
 		}
 		out = append(out, s)
 	}
